@@ -1,6 +1,7 @@
 package main
 
 import (
+	"sync/atomic"
 	"bytes"
 	"fmt"
 	"strconv"
@@ -71,8 +72,14 @@ func genGldapCtl(r *Rand, kind string) CtlSpec {
 	return c
 }
 
+var longCtlLists atomic.Int64
+
 func genGldapCtls(r *Rand, max int) []CtlSpec {
 	n := r.Intn(max + 1)
+	if r.Chance(2) {
+		n = pick(r, []int{16, 17, 24, 40}) // "any number of controls on one message"
+		longCtlLists.Add(1)
+	}
 	out := make([]CtlSpec, 0, n)
 	for i := 0; i < n; i++ {
 		out = append(out, genGldapCtl(r, pick(r, ctlKinds)))
